@@ -52,7 +52,11 @@ Definition realised_tags (m : mutation) (o : step_obs) : list string :=
   else if String.eqb (m_type m) "empty-file" then
     tag_if (negb (match so_stat o with
                   | Some s => kind_eqb (si_kind s) KFile && has_attrs_b m s
-                  | None => false end)) "viol:empty-file-not-present-with-perm-owner" ++
+                  | None => false end))
+           (* a path written with a trailing slash: the file is nested inside a
+              directory of that name (finding C13-F6) *)
+           (if ends_with_slash (m_path m) then "viol:empty-file-trailing-slash-nests-file"
+            else "viol:empty-file-not-present-with-perm-owner") ++
     (* present as declared but with content (finding C13-F4: a truncated
        package-backed file of tarfs shows the package's content again) *)
     tag_if (match so_stat o with
